@@ -736,7 +736,8 @@ def check_nodes(ctx, lib):
             # Lparen: returns the inner expression unchanged
             blocks = arm_only("Lparen")
             aggs = [s for _, _, s in region_aggs(b, blocks, AST)]
-            oks = [s for _, _, s in region_aggs(b, blocks, "std::result::Result") if s["rv"]["variant"] == "Ok"]
+            # (an inlined `expect(..)` helper's own `Ok(())` is not a result of the arm)
+            oks = [s for _, _, s in region_aggs(b, blocks, "std::result::Result") if s["rv"]["variant"] == "Ok" and "ast::Ast" in str(s["place"].get("ty", "ast::Ast"))]
             ok = not aggs and len(oks) == 1 and is_call_to(o.of_operand(oks[0]["rv"]["ops"][0]), P + "expr")
             n += 1
             ctx.check(ok, rule, "nud:Lparen", "a parenthesised expression yields the inner node itself (no wrapper node, no projection_rhs)", b.span)
